@@ -63,6 +63,7 @@ pub fn summarise_output(v: &Value) -> Option<String> {
     Some(format!("other {}", v.get("method").and_then(|m| m.as_str()).unwrap_or("?")))
 }
 
+#[allow(dead_code)]
 fn strip_ansi(s: &str) -> String {
     let mut out = String::new();
     let mut chars = s.chars().peekable();
@@ -81,6 +82,7 @@ fn strip_ansi(s: &str) -> String {
     out
 }
 
+#[allow(dead_code)]
 fn error_codes(stderr: &str) -> Vec<String> {
     let mut codes = vec![];
     for line in strip_ansi(stderr).lines() {
@@ -152,7 +154,14 @@ fn run_cli_case(prop: &str, bin: &Path, dir: &Path, case: &ProcCase) -> Option<V
     let stderr = String::from_utf8_lossy(&std::fs::read(&err_path).unwrap_or_default()).to_string();
     let code = status.code();
     let exit_ok = code == Some(0);
-    let codes = error_codes(&stderr);
+    // the same tolerant reading of stdout/stderr as for the in-process capture
+    let printed = crate::world::parse_printed(&stdout, &stderr);
+    let mut codes = printed.codes.clone();
+    codes.sort();
+    codes.dedup();
+    let mut predicted_set = predicted_codes.clone();
+    predicted_set.sort();
+    predicted_set.dedup();
     let describe = format!("`ironplcc {cmd} {args:?}` ({label}) exit={code:?} stdout-tail={:?} codes={codes:?}; in-process prediction: ok={predicted_ok} codes={predicted_codes:?}", stdout.lines().last().unwrap_or(""));
     // killed by a signal, or Rust's panic status: abnormal. Any other non-zero status is "failure"
     // (the property distinguishes zero from non-zero only).
@@ -163,7 +172,7 @@ fn run_cli_case(prop: &str, bin: &Path, dir: &Path, case: &ProcCase) -> Option<V
         return Some(viol(prop, "exit-status", describe));
     }
     if cmd == "check" {
-        let ok_line = stdout.lines().any(|l| l.trim() == "OK");
+        let ok_line = printed.ok_line;
         if ok_line != exit_ok {
             return Some(viol(prop, "ok-line", describe));
         }
@@ -173,7 +182,9 @@ fn run_cli_case(prop: &str, bin: &Path, dir: &Path, case: &ProcCase) -> Option<V
         if exit_ok && !codes.is_empty() {
             return Some(viol(prop, "diagnostic-but-exit-0", describe));
         }
-        if codes != *predicted_codes {
+        // every code the in-process run handed to the renderer appears on the real stderr and vice
+        // versa (how often is not constrained)
+        if codes != predicted_set {
             return Some(viol(prop, "codes", describe));
         }
     }
